@@ -57,7 +57,7 @@ claimed["C08"] = (
     "disconnect point d, the client's offset = ANY addressed packet before the disconnect (it may lag), symbolic time between the last packet and the moment the disconnect is noticed, clean-up passes after the disconnect (0..1) and before the restore (0..2) executed by running the real cleaner goroutine body (its time.Sleep is gated), and the time elapsed between "
     "all steps as SYMBOLIC durations (0..4 units each, decided by the solver, not enumerated). Asserts: recovered => exactly the addressed packets after the offset, in order, none twice (no gap); session older "
     "than the window => not recovered; session and log entries younger than the window => recoverable whatever the passes; unknown pid / unknown offset / EMPTY offset / ANY 1..2-byte offset that is not a logged id => not recovered, the adapter's mutex free and the adapter usable afterwards; only plain events are logged. "
-    "Repeated recovery: recovered, rooms changed by a symbolic join / leave, persisted again, two broadcasts missed, recovered again: rooms and replay follow the LATEST disconnection. Glue: the client records the trailing offset argument iff it holds a session id and strips it before the handler; a recovered server socket re-joins exactly its persisted rooms and re-sends exactly the missed packets in order.",
+    "Clean-up passes while everybody is connected (0..2, then disconnect, a missed packet, 0..1 more passes): still recovered with exactly the missed packet. Repeated recovery: recovered, rooms changed by a symbolic join / leave, persisted again, two broadcasts missed, recovered again: rooms and replay follow the LATEST disconnection. Glue: the client records the trailing offset argument iff it holds a session id and strips it before the handler; a recovered server socket re-joins exactly its persisted rooms and re-sends exactly the missed packets in order.",
     "Outside the claim: instants exactly at the window boundary (durations are multiples of 100ms against a 250ms window), binary packets through the real encoder (frames are opaque), several sessions on one log, time overflow. Native replay approximates cleaner passes with a 2ms period.",
     "5 (C08)")
 
@@ -71,7 +71,7 @@ claimed["C09"] = (
     "(two-entry map[string]any / map[string]Binary with an unordered oracle, struct pointer / struct value / map[string]any / []any / bare Binary / []Binary / two leaves in one struct / pointer and interface fields / slice->map->struct pointer / *Binary (refused) / map[string]Binary / "
     "[]*struct / [][]any / map in map / struct value with interface field) with ANY bytes in 1..2 Binary leaves of 0..2 (quick) / 0..3 (thorough) bytes each: the frames are exactly '5<n>-' + the JSON text with the "
     "n-th leaf (walk order) replaced by {\"_placeholder\":true,\"num\":n} + the n attachments byte-identical and in order; the caller's values are unchanged afterwards (snapshot comparison); encoding the same "
-    "values again yields the same frames, also with the SAME header object (the kept packets of connection state recovery: found a defect there, repaired); and the frames fed to a second parser's Add complete exactly once with the last frame and decode (typed struct, map[string]any, map[string]Binary targets) to byte-identical "
+    "values again yields the same frames, also with the SAME header object (the kept packets of connection state recovery: found a defect there, repaired); and the frames fed to a second parser's Add complete exactly once with the last frame and decode (typed struct, map[string]any, map[string]Binary, []Binary targets) to byte-identical "
     "leaves. A REFUSED Encode (two-leaf shapes against maxAttachments = 1, or a trailing *Binary) leaves the values intact as well and they still encode with a parser without the limit. The JSON library is a structural renderer that `sv selftest C09` compares with encoding/json on the whole menu.",
     "Outside the claim (structural): everything encoding/json does beyond string literals and the shapes of the menu (numbers, unicode escapes, field tags, map key order with several keys); argument trees outside "
     "the menu; ack ids above the bound (the digit loop is the same code; 64-bit div/mod chains exceed the solver budget); non-ASCII / control characters in event names.",
@@ -82,7 +82,7 @@ claimed["C15"] = (
     "draw r in [0,1) symbolic; attempt number concretised (quick: 0,31,62,63 - one per regime: exact, int64 wrap of min*2^k, float->int overflow at 2^63; thorough: every 0..70): 0 < delay <= max, first delay == min "
     "without jitter, attempt accounting; (all (min,max), k <= 40, no overflow) delays do not decrease without jitter. FP queries are decided by fresh z3 processes, cvc5 / z3 5.1 as fall-back. (2) Reconnect state "
     "machine (real Manager.reconnect/connect/onReconnect with the network dial cut) for every attempt limit N in 0..4 and every outage length j in 0..5: dials exactly min(j+1,N) times, reconnect_failed exactly once "
-    "after N failures (disconnected, back-off reset, no reconnect), reconnect exactly once with the successful attempt's number otherwise, attempts numbered 1,2,3.. ; a stop (Manager.Close) after 0..3 computed delays of a cycle followed by a new open with the server still down starts a full cycle of its own (N attempts, one reconnect_failed). (4) an offline emit with ack + timeout (public API) times out during the outage: its callback gets ErrAckTimeout once and every other non-volatile offline emit is still delivered once, in order. (5) buffered offline emits and an emit from a connect handler through the real clientSocket.onConnect: the buffered events go out first, in order. (3) Offline buffer: 1..3/4 emits while "
+    "after N failures (disconnected, back-off reset, no reconnect), reconnect exactly once with the successful attempt's number otherwise, attempts numbered 1,2,3.. ; a stop (Manager.Close) after 0..3 computed delays of a cycle followed by a new open with the server still down starts a full cycle of its own (N attempts, one reconnect_failed). (4) an offline emit with ack + timeout (public API) times out during the outage: its callback gets ErrAckTimeout once and every other non-volatile offline emit is still delivered once, in order. (6) the retry queue (Retries > 0): unacknowledged head, outage, offline emit, real onConnect: the head is retransmitted at once, the offline emit follows its acknowledgement; (5) buffered offline emits and an emit from a connect handler through the real clientSocket.onConnect: the buffered events go out first, in order. (3) Offline buffer: 1..3/4 emits while "
     "disconnected with symbolic volatile flags and 1..2 frames each, then emitBuffered twice: exactly the non-volatile emits' frames, in order, once; volatile dropped; second flush sends nothing.",
     "Outside the claim: max above 2^53 ns (float64(max) may round up past max), attempt numbers above 70, real timers / outages / black-holed dials, the retry queue (clientPacketQueue), ack-carrying offline emits "
     "(C03 covers their timeout). math.Pow is evaluated natively on concrete operands; float->int conversion follows amd64. One jitter-bound assertion (delay <= 2*min at attempt 0) stayed unknown on all three solvers at 60 s and is not claimed.",
@@ -104,7 +104,7 @@ claimed["C03"] = (
     "(2) three outstanding acks and a reply with an ARBITRARY symbolic uint64 id, delivered twice: only the callback registered under exactly that id runs, at most once, unknown/duplicate ids reach the error "
     "handlers; (3) client socket offline: 1..2 (quick) / 1..3 (thorough) buffered emits of 1..3/4 frames with and without acks, the timeout of one fires while it is still buffered: callback exactly once with "
     "ErrAckTimeout, buffer == frames of the other packets in order, sendBufferMu free, socket still usable; "
-    "(6) acks outstanding across a reconnection: A (with timeout) outstanding, connection lost, connected again, B emitted, A times out, the reply to B reaches B (an id still held is not handed out again); (4) through the public Emit / Timeout(d).Emit on a client socket and on a server socket: the peer answers before the emitter has returned from the send (client: inside the send hook; server: a peer thread "
+    "(7) a chained request / response (an ack callback emits again with an ack of its own), server and client: no deadlock, both replies reach their callbacks once; (6) acks outstanding across a reconnection: A (with timeout) outstanding, connection lost, connected again, B emitted, A times out, the reply to B reaches B (an id still held is not handed out again); (4) through the public Emit / Timeout(d).Emit on a client socket and on a server socket: the peer answers before the emitter has returned from the send (client: inside the send hook; server: a peer thread "
     "that may run at every scheduling point once the frame is queued): the callback gets that reply exactly once, no timeout; (5) a handler calling its ack function from two goroutines produces exactly one ACK.",
     "Bounds: preemption bound 3. Outside the claim: real timer durations (the claim is about every ORDER), the wire format of ACK packets (C09), nothing else known.",
     "5 (C03)")
@@ -135,7 +135,7 @@ claimed["C06"] = (
     "termination causes concurrently - every pair of {transport close, client DISCONNECT, server namespace disconnect, server connection close, server shutdown} - under all interleavings at synchronisation points "
     "(preemption bound 1 quick / 2 thorough): its disconnect handler runs exactly once with the reason of a cause that occurred; afterwards the namespace's socket list, the connection's socket list and every room "
     "have forgotten it, it is disconnected, no mutex is left held; (2) the connection dies at any point while a CONNECT is being admitted through a (yielding) namespace middleware: afterwards the namespace lists no "
-    "socket of the dead connection and no room keeps its id; (5) the connection is cut while the backlog is flushed during the real upgradeTo (the new transport reports its close, with or without error, from inside the write of backlog packet 1 or 2): OnClose exactly once with transport close / transport error; (4) Engine.IO level: a handshake whose application callback yields races Server.Close: every announced session gets OnClose exactly once and the session store is empty afterwards; (3) one termination cause races a Join from another goroutine or a SocketsJoin of an operator (preemption bound 2): afterwards the socket is in no room "
+    "socket of the dead connection and no room keeps its id; (6) adapter level: DeleteAll from every 2x2 membership including sockets that left their own-id room: no room lists the socket, indexes stay mutually inverse; (5) the connection is cut while the backlog is flushed during the real upgradeTo (the new transport reports its close, with or without error, from inside the write of backlog packet 1 or 2): OnClose exactly once with transport close / transport error; (4) Engine.IO level: a handshake whose application callback yields races Server.Close: every announced session gets OnClose exactly once and the session store is empty afterwards; (3) one termination cause races a Join from another goroutine or a SocketsJoin of an operator (preemption bound 2): afterwards the socket is in no room "
     "and nothing lists it (found a genuine race of Join against the teardown, repaired: DESIGN.md 0.4). Counterexample schedules are replayed natively through instrumented copies of the package's files.",
     "Outside the claim: cutting the TCP stream at byte k, real ping timers, the Engine.IO-level close paths and session-id lookup (C17 covers 'closed sid => error 1'), upgrades in flight, connection state recovery on close.",
     "5 (C06)")
@@ -145,7 +145,7 @@ claimed["C02"] = (
     "connection's real send path (serverConn.sendBuffers -> packetQueue.add), one of them two packets in a row, while a consumer drains with the real poll: every frame is on the wire exactly once, the frames of a "
     "packet are contiguous and in frame order, packets of one goroutine keep their order; (b) handler-entry order: two EVENT packets (the first optionally binary with an attachment) arriving in one Engine.IO payload "
     "through the real serverConn.onEIOPacket -> onParserFinish -> serverSocket.onPacket -> handler, and the same on the client through Manager.onEIOPacket: the handlers are entered in packet order "
-    "(this was violated on the pinned commit - one goroutine per decoded packet - first recorded as a known finding, then repaired, DESIGN.md 0.4 F14); (b') a burst: five events in two payloads with yielding handlers, server and client, all interleavings: each once, in order; (d) a batch taken from the long-polling queue (poll / get, 1..3 packets, handed over singly or in pairs) keeps exactly its packets while 1..3 more are sent, which come out next, each once, in order; (c) after an upgrade: two two-frame events (one queued on the real "
+    "(this was violated on the pinned commit - one goroutine per decoded packet - first recorded as a known finding, then repaired, DESIGN.md 0.4 F14); (b') a burst: five events in two payloads with yielding handlers, server and client, all interleavings: each once, in order; (e) events emitted before the socket is connected and an emit from a connect handler through the real onConnect: the earlier events first (kernel shared with C15_offline_onconnect); (d) a batch taken from the long-polling queue (poll / get, 1..3 packets, handed over singly or in pairs) keeps exactly its packets while 1..3 more are sent, which come out next, each once, in order; (c) after an upgrade: two two-frame events (one queued on the real "
     "polling transport or both concurrent) around the real Engine.IO upgradeTo: every frame exactly once on the new transport, the frames of each event adjacent and in order.",
     "Outside the claim: more than 2 producers / longer bursts (argument: the critical section is one mutex-protected append), more than two events per payload, "
     "reordering between two physical transports on the client side of an upgrade, real transports.",
@@ -167,6 +167,7 @@ claimed["C16"] = (
     "slice element (vector clocks; confirmed natively with `go test -race`), a goroutine left blocked with nobody to release it, a mutex left held, unlock of an unlocked mutex, an escaping panic. Groups: G1 handlerStore "
     "on/once/off/offAll/forEach/getAll with a handler that removes itself while dispatched; G2 eventHandlerStore on/once/off/offAll/getAll and off with a non-function argument (panics in reflect, recovered by the caller: mutex free, store usable); G3 packetQueue add/get/reset/close (+ a parked poller); G4 clientSocket (real constructor) Emit plain / with ack / volatile, OnEvent, OffEvent, an incoming event, an incoming ACK whose callback emits again, Disconnect; "
     "G5 operations from a CLIENT acknowledgement callback delivered through the real reader path (Manager.onEIOPacket under the parser mutex): Disconnect / Manager.Close / Emit with ack / OnEvent / OffEvent: no deadlock, no mutex held, reader usable afterwards; "
+    "G9 the Engine.IO client's UpgradeDone handler asks for the transport name and sends while the real tryUpgradeTo / finishUpgradeTo completes; "
     "G6 namespace-wide Emit / To(room).Emit / SocketsJoin / SocketsLeave / FetchSockets / DisconnectSockets / Sockets (quick: one operation, thorough: every pair) racing a client being admitted through a middleware that joins a room, on the "
     "admitted socket's namespace or another one; G8 Engine.IO server socket (real newServerSocket, ping loop running) Send / Close / onPong / TransportName / incoming CLOSE / upgradeTo / transport close; G7 serverSocket "
     "Join/Leave/registerAckHandler/onAck/onClose/Disconnect/Rooms on a connected socket of the server world; session-aware adapter: RestoreSession (unknown session / unknown offset / good offset) against Broadcast and "
@@ -196,7 +197,7 @@ claimed["C07"] = (
     "closes ONLY the candidate, the socket stays open on its original transport and keeps sending there; (3) client: the real tryUpgradeTo/finishUpgradeTo with the candidate answering pong 'probe' / another pong / "
     "another packet / nothing: UPGRADE is the first packet on the new transport, old transport discarded once, later messages on the new one; failures and the timeout leave the original transport in place, the socket open and working; "
     "(5) the WebSocket transport a client creates for an upgrade admits every server -> client message within the announced maxPayload (symbolic sizes up to 2^40, beyond the library's 32 KiB default); (4) client swap race: a Send from another goroutine racing the real finishUpgradeTo under all interleavings: sent exactly once and never ahead of UPGRADE on the new transport.",
-    "Outside the claim: the WebSocket/WebTransport handshakes, the real probe exchange, in-flight HTTP responses, reordering BETWEEN the two physical transports during the swap window, binary/text mix.",
+    "Outside the claim: the long-polling CLIENT transport over real net/http (a seeded change that drops the last poll answer arriving after Discard, C07f, is NOT caught), the WebSocket/WebTransport handshakes, the real probe exchange, in-flight HTTP responses, reordering BETWEEN the two physical transports during the swap window, binary/text mix.",
     "5 (C07)")
 
 claimed["C01"] = (
@@ -206,7 +207,7 @@ claimed["C01"] = (
     "in another namespace), 0..2 binary attachments of 0..2 SYMBOLIC bytes each (so the 0x1e record separator, 'b', digits are points of the solver's domain), framing mode, 1 (quick) / 1..2 (thorough) events. "
     "Asserts: the event reaches exactly the peer's handler(s) registered for that name in that namespace, exactly once, with byte-identical attachments in their places; an event without handler reaches nobody; "
     "no half-assembled packet stays in the decoder; the connection is not closed. C01_upgrade_server: two two-frame events (one queued on the real polling transport, or both concurrent) around the real "
-    "Engine.IO upgradeTo under all interleavings: every frame reaches the new transport exactly once and the frames of each event stay adjacent and in order. C01_batch: the client's long-polling batcher with symbolic packet sizes and maxPayload (kernel shared with C13_batch): every packet once, in order, no multi-packet body above the announced limit. C01_concurrent_emitters: two goroutines emit a binary event each on one connection under all interleavings, the queue content then travels through the pipeline: both handlers once, each with its own attachment. C01_pipeline_recovery: the server -> client pipeline with connection state recovery ON (emit through the real session-aware adapter, client holding a session id): each event once, attachments byte-identical, also when the same values are emitted twice. The Socket.IO codec is a frame-preserving stand-in here: header/JSON are C09's subject, Engine.IO framing is C11's, the queue C02/C19's.",
+    "Engine.IO upgradeTo under all interleavings: every frame reaches the new transport exactly once and the frames of each event stay adjacent and in order. C01_decode_args: an event with Binary leaves (struct, map[string]any, map[string]Binary, []Binary; symbolic bytes) through the real encoder, Add and decode closure: every leaf back in its place (kernel shared with C09_walk_rt). C01_batch: the client's long-polling batcher with symbolic packet sizes and maxPayload (kernel shared with C13_batch): every packet once, in order, no multi-packet body above the announced limit. C01_concurrent_emitters: two goroutines emit a binary event each on one connection under all interleavings, the queue content then travels through the pipeline: both handlers once, each with its own attachment. C01_pipeline_recovery: the server -> client pipeline with connection state recovery ON (emit through the real session-aware adapter, client holding a session id): each event once, attachments byte-identical, also when the same values are emitted twice. The Socket.IO codec is a frame-preserving stand-in here: header/JSON are C09's subject, Engine.IO framing is C11's, the queue C02/C19's.",
     "Outside the claim (structural for this family): argument trees through encoding/json and the reflect walk, sizes near 32 KiB / 64 KiB / MaxBufferSize and the transports' read limits (C13 decides the limit kernels it lists), "
     "real network transports, the client side of the upgrade (C07 kernel), more than two concurrent emitters, 2..3 clients.",
     "5 (C01)")
